@@ -52,6 +52,7 @@ ValueOfName(name) == LET i == FrameOf(name) IN IF i = 0 THEN Unset ELSE frames[i
 AtomValue(a) == CASE a.k = "num" -> Num(a.v)
                   [] a.k = "null" -> Null
                   [] a.k = "retval" -> retval      \* the value of the call just completed
+                  [] a.k = "membnull" -> Null      \* gobj.k where the global object gobj has no key k
                   [] a.k = "var" -> ValueOfName(a.n)
 AtomOpen(a) == a.k = "var" /\ Captures(a.n)
 AtomFaults(a) == a.k = "faultx"
@@ -227,6 +228,13 @@ ExecShow ==
   /\ open' = (open \/ Captures(Top.s.n))
   /\ frames' = Touch(frames, <<[k |-> "var", n |-> Top.s.n]>>)
   /\ UNCHANGED <<prog, sched, si, sig, retval, conds, trues, outcome>>
+
+\* showg: prints the global object gobj, which no program of these families assigns to:
+\* it must still be the empty object (a missing member passed to a call is passed as null, by value)
+ExecShowG ==
+  /\ Idle /\ TopStmt("showg")
+  /\ Say(<<"g">>) /\ ctl' = Pop
+  /\ UNCHANGED <<prog, sched, si, frames, sig, retval, conds, trues, outcome, open>>
 
 Raise(s) == sig' = s
 
@@ -479,7 +487,7 @@ Next ==
   \/ Done
   \/ StartRule \/ PatternDecide \/ PatUnwind \/ EndRule \/ Finish \/ RuleConsumeNext \/ RuleNextElsewhere
   \/ DriverConsumeExit \/ SelectorExit \/ DriverFault
-  \/ ExecPrint \/ ExecShow \/ ExecSignal \/ ExecReturn \/ ExecFault \/ ExecBlock \/ SeqStep
+  \/ ExecPrint \/ ExecShow \/ ExecShowG \/ ExecSignal \/ ExecReturn \/ ExecFault \/ ExecBlock \/ SeqStep
   \/ ExecIf \/ ExecLoopEnter \/ LoopTest \/ ForPost \/ ExecForInEnter \/ ForInNext
   \/ LoopConsumeBreak \/ LoopConsumeContinue
   \/ ExecCallStmt \/ ExecSet \/ CallReturn \/ CallUnwind \/ ExecMatchStmt \/ MatchBodyCall \/ MatchLeave
